@@ -210,4 +210,73 @@ theorem isAncestor_sound (s : Schema) (name : String) (fuel : Nat) (en : String)
   obtain ⟨l, hne, _, hp, hlast⟩ := (isAncestor_iff_path s name fuel en).mp h
   exact isPath_reach l en name hp (List.mem_of_getLast? hlast)
 
+theorem isPath_split {g : String → List String} : ∀ (l1 : List String) (a y : String) (r : List String),
+    IsPath g a (l1 ++ y :: r) ↔ IsPath g a (l1 ++ [y]) ∧ IsPath g y r
+  | [], a, y, r => by simp [IsPath]
+  | x :: l1, a, y, r => by
+    simp only [List.cons_append, IsPath]
+    rw [isPath_split l1 x y r]
+    exact ⟨fun ⟨h1, h2, h3⟩ => ⟨⟨h1, h2⟩, h3⟩, fun ⟨⟨h1, h2⟩, h3⟩ => ⟨h1, h2, h3⟩⟩
+
+theorem getLast?_append_cons (l1 : List String) (y : String) (r : List String) :
+    (l1 ++ y :: r).getLast? = (y :: r).getLast? := by
+  induction l1 with
+  | nil => rfl
+  | cons x xs ih =>
+    cases hx : xs ++ y :: r with
+    | nil => simp at hx
+    | cons b bs => rw [List.cons_append, hx, List.getLast?_cons_cons, ← hx, ih]
+
+/-- a path can be shortened to one without a repeated node -/
+theorem exists_nodup_path {g : String → List String} (a c : String) : ∀ (n : Nat) (l : List String), l.length = n →
+    IsPath g a l → l.getLast? = some c → ∃ l', l'.Nodup ∧ IsPath g a l' ∧ l'.getLast? = some c := by
+  intro n
+  induction n using Nat.strongRecOn with
+  | ind n ih =>
+    intro l hl hp hlast
+    by_cases hnd : l.Nodup
+    · exact ⟨l, hnd, hp, hlast⟩
+    · obtain ⟨l1, y, l2, he, hy⟩ := exists_dup_of_not_nodup l hnd
+      obtain ⟨m1, m2, hm⟩ := List.append_of_mem hy
+      subst he; subst hm
+      have hp1 := (isPath_split l1 a y _).mp hp
+      have hp2 : IsPath g y m2 := isPath_suffix m1 y y m2 hp1.2
+      have hp' : IsPath g a (l1 ++ y :: m2) := (isPath_split l1 a y m2).mpr ⟨hp1.1, hp2⟩
+      have hlast' : (l1 ++ y :: m2).getLast? = some c := by
+        rw [getLast?_append_cons] at hlast ⊢
+        have : (y :: (m1 ++ y :: m2)).getLast? = (y :: m2).getLast? := by
+          have := getLast?_append_cons (y :: m1) y m2
+          simpa using this
+        rw [this] at hlast; exact hlast
+      refine ih (l1 ++ y :: m2).length ?_ _ rfl hp' hlast'
+      subst hl
+      simp only [List.length_append, List.length_cons]
+      omega
+
+/-- **every proper ancestor is found with the fuel the passes use**: `isAncestor … (declarations + 1)` ⇔ `name` is reachable from the entity
+    through one or more `SUBTYPE OF` edges -/
+theorem isAncestor_iff_reach (s : Schema) (name en : String) :
+    isAncestor s name (s.decls.length + 1) en = true ↔ Reach (superGraph s) en name := by
+  constructor
+  · exact isAncestor_sound s name _ en
+  · intro hr
+    -- a path, then a path without repetition, whose nodes are entity names: its length is at most the number of entities
+    have hpath : ∃ l, IsPath (superGraph s) en l ∧ l.getLast? = some name := by
+      induction hr with
+      | step h => exact ⟨[_], by simp [IsPath, h], rfl⟩
+      | @trans a b c h _ ih =>
+        obtain ⟨l, hp, hl⟩ := ih
+        refine ⟨b :: l, ⟨h, hp⟩, ?_⟩
+        cases l with
+        | nil => simp at hl
+        | cons x xs => simpa [List.getLast?_cons_cons] using hl
+    obtain ⟨l, hp, hl⟩ := hpath
+    obtain ⟨l', hnd, hp', hl'⟩ := exists_nodup_path en name l.length l rfl hp hl
+    have hlen := nodup_length_le l' (s.entities.map (·.name)) hnd (isPath_entities s l' en hp')
+    simp only [List.length_map] at hlen
+    have : s.entities.length ≤ s.decls.length := List.length_filterMap_le _ _
+    apply (isAncestor_iff_path s name _ en).mpr
+    refine ⟨l', ?_, by omega, hp', hl'⟩
+    intro h; rw [h] at hl'; simp at hl'
+
 end StepModel.Express.Resolve
